@@ -7,6 +7,8 @@ import (
 	"os"
 	"path/filepath"
 	"runtime"
+	"runtime/debug"
+	"runtime/pprof"
 	"sort"
 	"strings"
 	"time"
@@ -116,7 +118,28 @@ func defaultOptions() *Options {
 		Workers: runtime.NumCPU(), Samples: 20, SkipInit: map[string]bool{}, MaxBigBytes: 80, MaxDecDigits: 80, BigBitopWidth: 256, MaxInitSteps: 3_000_000}
 }
 
+func heapDumper() {
+	path := os.Getenv("GOSYM_HEAP")
+	if path == "" {
+		return
+	}
+	go func() {
+		for {
+			time.Sleep(40 * time.Second)
+			f, err := os.Create(path)
+			if err == nil {
+				pprof.WriteHeapProfile(f)
+				f.Close()
+			}
+		}
+	}()
+}
+
 func main() {
+	heapDumper()
+	// long explorations allocate fast on 16 workers: keep the collector ahead of them
+	debug.SetGCPercent(50)
+	debug.SetMemoryLimit(24 << 30)
 	var (
 		prop     = flag.String("prop", "", "property id (e.g. C08)")
 		tier     = flag.String("tier", "quick", "quick|thorough")
